@@ -57,6 +57,10 @@ def step (_ : Unit) (j : Json) : Except String (Unit × Drv.Out) := do
       o := o.diff "BuildMiddlewareFromNIP11: implementation panicked, model builds a chain"
       o := o.mon "nip11Chain" "nip11.panic" s!"BuildMiddlewareFromNIP11 panicked on document {docJ.compress}"
       return ((), o)
+  if docJ == .null && fldD j "buildPanic" == .bool true then
+    o := o.diff s!"building the middleware stack {repr stack} panicked: {(fldD j "panicText").compress}"
+    o := o.mon "limitMw" "mw.build-panic" s!"constructing the stack {repr stack} (all parameters legal) panicked: {(fldD j "panicText").compress}"
+    return ((), o)
   let steps ← asArr (← fld j "steps")
   let mut mst := freshStack stack
   let mut sst : List (Mw × SpecSt) := stack.map fun mw => (mw, {})
